@@ -402,8 +402,15 @@ func (p *Parser) parseActions(token Token) []Expression {
 
 		p.nextToken()
 
+		clause := p.curToken
+
 		otherUpdate := p.parseUpdateActionExpression()
 		if updateExpression, ok := otherUpdate.(*UpdateExpression); ok {
+			if len(updateExpression.Expressions) == 0 && len(p.errors) == 0 {
+				msg := fmt.Sprintf("Syntax error; %s clause without actions", clause.Literal)
+				p.errors = append(p.errors, msg)
+			}
+
 			actions = append(actions, updateExpression.Expressions...)
 		}
 	}
